@@ -1121,6 +1121,28 @@ def _is_exception(node: ast.AST) -> bool:
     return False
 
 
+def _has_jump_of_this_loop(statements: Sequence[ast.stmt], jump_types: Tuple[type, ...]) -> bool:
+    """Whether a break or continue among statements belongs to the loop that statements are in.
+
+    Those in the body of an inner loop are its own, those in its else clause are not.
+    """
+    for node in statements:
+        if isinstance(node, jump_types):
+            return True
+        if isinstance(node, (ast.FunctionDef, ast.AsyncFunctionDef, ast.ClassDef)):
+            continue
+        if isinstance(node, (ast.For, ast.AsyncFor, ast.While)):
+            blocks = [node.orelse]
+        else:
+            blocks = [getattr(node, field, []) for field in ("body", "orelse", "finalbody")]
+            blocks.extend(handler.body for handler in getattr(node, "handlers", []))
+            blocks.extend(case.body for case in getattr(node, "cases", []))
+        if any(_has_jump_of_this_loop(block, jump_types) for block in blocks if isinstance(block, list)):
+            return True
+
+    return False
+
+
 def is_blocking(node: ast.AST, parent_type: ast.AST = None) -> bool:
     """Check if a node is impossible to get past.
 
@@ -1151,6 +1173,13 @@ def is_blocking(node: ast.AST, parent_type: ast.AST = None) -> bool:
             )
         else:
             return any(is_blocking(child, parent_type) for child in branch)
+
+    if isinstance(node, (ast.For, ast.While)):
+        # A break of this loop, at any depth, leaves it, and in a for loop a continue skips what
+        # comes after it
+        leaving = (ast.Break, ast.Continue) if isinstance(node, ast.For) else (ast.Break,)
+        if _has_jump_of_this_loop(node.body, leaving):
+            return False
 
     if isinstance(node, ast.While):
         try:
